@@ -849,6 +849,7 @@ func vkGenHealthy(r *vfRng, thorough bool) vfCase {
 func vkGenFaults(r *vfRng, thorough bool) vfCase {
 	N := 4 + r.n(5)
 	cfg := vkCfg(r, 2, N)
+	cfg[5] &^= vkChatty | vkSlowWrite // healthy-period scenarios; ten virtual minutes of them cost too much here
 	cfg[2] = 200
 	cfg[6], cfg[7] = 8, 6
 	for i := 0; i < N; i++ {
